@@ -532,7 +532,12 @@ class Engine:
 
     def _solver(self, timeout_ms=None):
         s = z3.Solver()
-        s.set('timeout', timeout_ms or self.timeout_ms)
+        t = int(timeout_ms or self.timeout_ms)
+        # every budget is a deterministic resource limit (about what z3 does in `t` ms on an idle core); the wall clock
+        # is only a distant backstop.  A verdict, and every decision taken during symbolic execution, is then the same on
+        # an idle and on a busy machine.
+        s.set('rlimit', t * 600)
+        s.set('timeout', max(8 * t, 30000))
         s.set('random_seed', self.seed)
         return s
 
